@@ -50,7 +50,8 @@ def entry_view(e, collide=()):
 ABSENT_ENTRY = dict(present=False, ver=0, sub=0, createdby=[], has_error=False, has_data=False, data=[], canon='')
 
 
-def observe(pel, focus, plugins, beh, family, expect_canon='', c18=False, pel_ok=None, fixture=False, collide=()):
+def observe(pel, focus, plugins, beh, family, expect_canon='', c18=False, pel_ok=None, fixture=False, collide=(),
+            via_cli=False):
     import verif_fixture
     seams.install_fixture_plugins()
     log = seams.install_import_recorder()
@@ -60,7 +61,7 @@ def observe(pel, focus, plugins, beh, family, expect_canon='', c18=False, pel_ok
     del log[:]
     before = seams.plugin_modules_loaded()
     data = encode.encode(pel)
-    res = pelrun.decode(data, plugins)
+    res = pelrun.decode_cli(data, plugins) if via_cli else pelrun.decode(data, plugins)
     after = seams.plugin_modules_loaded()
     imports = [n for n in log if n.split('.')[0] == 'udparsers']
     calls = [dict(name=c[1], sub=c[2], ver=c[3], payload=list(c[4])) for c in verif_fixture.CALLS if c[0] == 'ud']
